@@ -16,7 +16,7 @@ import warnings
 
 import pandas as pd
 
-from .common import Report, audit, corpus_cases, rng_for, run_driver
+from .common import Report, audit, corpus_cases, rng_for, run_driver, warm_up_backends
 from .regen import regenerate
 
 PROP = "C15"
@@ -792,6 +792,7 @@ def inverse_laws(rep, c, r, backend):
 
 def run(tier, replay=None):
     rep = Report(PROP, tier)
+    warm_up_backends()
     regenerate(("columnprops",))
     rep.audit = audit(PROP, MODULES)
     rep.audit["modules"] = MODULES
